@@ -19,7 +19,7 @@ CHECKS = {
 
 CHECKS["C01"] = dict(
     level="exploration",
-    text="Seeded search over sessions of tunnel requests (17 Proxy-Authorization classes, 7 request kinds, 3 authenticator configurations, SNI-credential states, both protocols, multiplexed orders) against the real Tunnel five-way match, header parsing and authenticator; a reference authorisation table written from the statement decides 407 / no egress per request, and the world's connect/resolver census attributes every egress to one request.",
+    text="Seeded search over sessions of tunnel requests (22 Proxy-Authorization classes, 7 request kinds, 3 authenticator configurations, SNI-credential states, both protocols, multiplexed orders) against the real Tunnel five-way match, header parsing and authenticator; a reference authorisation table written from the statement decides 407 / no egress per request, and the world's connect/resolver census attributes every egress to one request.",
     design="DESIGN.md section 8 (C01)",
     note="Trusted: the h2 client as HTTP/2 peer, the world's socket model. TLS is skipped (SNI credentials are handed to the session door). HTTP/3 not simulated.",
 )
